@@ -34,8 +34,8 @@ ASSUMPTIONS = ["Fraction(float) is the exact value of a double; Python str order
                "complex numbers: == judged exactly on (re, im); ordering may raise or must follow the (re, im) pair order",
                "ties: min/max/sort may return any of several equal (==) elements; stability is not required",
                "== / != between different kinds are not judged (only the ordering operators must raise)"]
-PLAN = {"quick": {"matrix": 1, "triples": 40000, "near": 40000, "sort": 15000, "seqs": 30000, "kinds": 1},
-        "thorough": {"matrix": 1, "triples": 0, "cube": 1, "near": 400000, "sort": 150000, "seqs": 300000, "kinds": 1}}
+PLAN = {"quick": {"matrix": 1, "triples": 12000, "near": 12000, "sort": 5000, "seqs": 10000, "kinds": 1},
+        "thorough": {"matrix": 1, "triples": 0, "cube": 1, "near": 250000, "sort": 100000, "seqs": 200000, "kinds": 1}}
 EXHAUSTIVE = {"quick": True, "thorough": True}
 
 REG = dict(level="exploration", min_nontrivial=20000,
@@ -281,7 +281,10 @@ def judge_cell(sh, tag, a, b, sa, sb, ca, cb, res):
             if st == "cpx":
                 sh.count("complex_order_raises")
             else:
-                bad("raised", want[0], "expected %s" % str(want[0])[:100])
+                # every ordering operator goes through the same comparison: one key per (leaf kinds, container)
+                rp["expected"] = want[0]
+                viol(sh, "C08|order-raised|%s|%s" % ("~".join(sorted(leaf.split(","))), "scalar" if ka in NUMK else ka),
+                     "%s = error; expected %s (comparable operands)" % (text[:220], str(want[0])[:100]), rp)
         elif got not in want:
             bad("wrong", want[0], "expected %s" % str(want[0])[:100])
     # laws on the observed cells (non-NaN, comparable operands)
@@ -441,8 +444,19 @@ def run_triples(sh, r, w, pool, prelude, count, cube_rows=None):
                     for c in reals:
                         yield reals[i], b, c
         else:
+            # bias towards equal values in different representations so that the == laws have premises
+            classes = {}
+            for p in reals:
+                classes.setdefault(ext(p[2]), []).append(p)
+
+            def pick(prev):
+                if prev is not None and r.random() < 0.4:
+                    return r.choice(classes[ext(prev[2])])
+                return r.choice(reals)
             for _ in range(count):
-                yield r.choice(reals), r.choice(reals), r.choice(reals)
+                a = pick(None)
+                b = pick(a)
+                yield a, b, pick(b)
     batch = []
 
     def flush():
@@ -685,26 +699,25 @@ def run_kinds(sh, w, si, n):
     stmts = []
     for i, j in mine:
         sa, sb = KIND_REPS[i][0], KIND_REPS[j][0]
-        stmts.append("(\\a, b -> [%s])(%s, %s)" % (", ".join(cell_parts("a", "b")), sa, sb))
+        stmts.append("(\\a, b -> [a, b, %s])(%s, %s)" % (", ".join(cell_parts("a", "b")), sa, sb))
     evs = core.eval_all(w, stmts, jid="c08k")
     for (i, j), ev, stmt in zip(mine, evs, stmts):
         (sa, a), (sb, b) = KIND_REPS[i], KIND_REPS[j]
         if bad_outcome(sh, ev, stmt):
             continue
-        ca = to_canon(a) if not _has_other(a) else None
-        cb = to_canon(b) if not _has_other(b) else None
-        judge_cell(sh, "kinds", a, b, sa, sb, ca, cb, ev["v"]["l"])
-
-
-def _has_other(v):
-    if isinstance(v, Other):
-        return True
-    if isinstance(v, list):
-        return any(_has_other(x) for x in v)
-    return False
+        res = ev["v"]["l"]
+        judge_cell(sh, "kinds", a, b, sa, sb, norm(res[0]), norm(res[1]), res[2:])
 
 
 # ---------------------------------------------------------------- sort / min / max on multisets
+
+def leaf_kinds(m, acc):
+    if isinstance(m, (list, Vec)):
+        for x in m:
+            leaf_kinds(x, acc)
+    else:
+        acc.add(kind(m))
+
 
 def ckey_json(c):
     return json.dumps(c, sort_keys=True)
@@ -763,11 +776,14 @@ def run_sort(sh, r, w, pool, prelude, count):
             models = [p[2] for p in items]
             canons = [p[3] for p in items]
             ks = {kind(m) for m in models}
-            has_defect_mix = "rational" in ks and "float-inf" in ks
+            lk = set()
+            for m in models:
+                leaf_kinds(m, lk)
+            has_defect_mix = "rational" in lk and "float-inf" in lk
             # classify the multiset
             status = "ord"
             for x in range(len(models)):
-                for y in range(x + 1, len(models)):
+                for y in range(x, len(models)):
                     st = compare(models[x], models[y])[0]
                     if st == "incomp":
                         status = "incomp"
@@ -801,7 +817,7 @@ def run_sort(sh, r, w, pool, prelude, count):
                         sh.count("complex_order_raises")
                         continue
                     rp["expected"] = "a value"
-                    viol(sh, key + "raised" + ("|has:rational+float-inf" if has_defect_mix else ""),
+                    viol(sh, "C08|order-raised|%s|%s:%s" % ("float-inf~rational" if has_defect_mix else "?:" + flavour, fn, wrap),
                          "%s raised, all elements are comparable" % text[:260], rp)
                     continue
                 got = norm(obs)
